@@ -166,10 +166,10 @@ End Fast.
 
 (* C13, vector level, both paths: in every pair of represented states the library's
    vector == is equality of the two lists of tuples *)
-Theorem vec_equal_content L v1 l1 v2 l2 : wf_plist L = true ->
+Theorem vec_equal_content L v1 l1 v2 l2 : wf_plist L = true -> noflt L ->
   Rep L v1 l1 -> Rep L v2 l2 -> (vec_equal L v1 v2 = true <-> l1 = l2).
 Proof.
-  intros Hwf R1 R2.
+  intros Hwf Hnf R1 R2.
   destruct (forallb eqm L && padfree L && list_eqb (v_fixed v1) (v_fixed v2)) eqn:Hc.
   - assert (Hpf : padfree L = true).
     { apply andb_true_iff in Hc. destruct Hc as [Hc _]. apply andb_true_iff in Hc. tauto. }
